@@ -4,10 +4,12 @@
 //   drv_dns rec   <cases> <out.ndjson> <shards>    one response plan of DnsRecords.tla per line (JSON, see renderPlan)
 //   drv_dns query <cases> <out.ndjson> <shards>    one query plan per line (JSON)
 //   drv_dns cache <cases> <out.ndjson> <shards>    one operation sequence of DnsCache.tla per line
+//   drv_dns_e2e e2e <cases> <out.ndjson> <shards>  a response plan served over loopback UDP to a real DnsTransport::query
+//                                                  (drv_dns_e2e.cpp = this file with DRV_DNS_E2E defined)
 //
 // Every case is executed in a supervised child process: a crash (signal, sanitizer abort) or a case that exceeds the
 // per-case wall-clock limit is attributed to exactly that case ({"res":"crash"|"hang"}) and the run continues with the
-// next case in a fresh child.  Decoder inputs live in exact-size heap buffers so that AddressSanitizer sees every
+// next case in a fresh child (after 5 such cases a shard reports its remaining cases as "skipped").  Decoder inputs live in exact-size heap buffers so that AddressSanitizer sees every
 // read outside the message.  The driver has its OWN encoder and compressor (renderPlan); nothing of the library is
 // used to build a response.
 //
@@ -16,10 +18,17 @@
 // future) and every get() is compared with the Abs map by TLC (spec/dns/DnsCacheTrace.tla).
 #include "iora/network/dns/dns_cache.hpp"
 #include "iora/network/dns/dns_message.hpp"
+#ifdef DRV_DNS_E2E
+#include "iora/network/dns/dns_transport.hpp"
+#endif
 #include "vf/exec.hpp"
 #include "vf/trace.hpp"
 
+#include <arpa/inet.h>
 #include <fcntl.h>
+#include <netinet/in.h>
+#include <sys/socket.h>
+#include <thread>
 #include <functional>
 #include <map>
 #include <sys/mman.h>
@@ -59,6 +68,7 @@ struct Shared
   volatile double t0;  // start of the current case (CLOCK_MONOTONIC_RAW)
 };
 
+static const int kFailBudget = 5; // crashed / hung cases per shard after which the rest of the shard is skipped
 using CaseFn = std::function<std::string(long, const std::string &, Shared *)>;
 using FailFn = std::function<std::string(long, const std::string &, const char *, long)>;
 
@@ -129,8 +139,14 @@ static int supervise(const std::vector<std::string> &lines, long from, long to, 
     ++bad;
     FILE *out = fopen(outPath.c_str(), "a");
     fputs(fail(c, lines[c], what, sh->sub).c_str(), out);
-    fclose(out);
     start = c + 1;
+    if (bad >= kFailBudget)
+    {
+      // enough evidence from this shard: do not spend the per-case limit on thousands of further hangs
+      for (long i = start; i < to; ++i) fputs(fail(i, lines[i], "skipped", -1).c_str(), out);
+      start = to;
+    }
+    fclose(out);
   }
   munmap(sh, sizeof(Shared));
   return bad;
@@ -983,6 +999,92 @@ static std::string cacheFail(long, const std::string &line, const char *what, lo
          line + "}\n{\"e\":\"Reset\"}\n";
 }
 
+// ------------------------------------------------------------------------------------------------ e2e mode
+#ifdef DRV_DNS_E2E // built as drv_dns_e2e (the transport headers quadruple the compile time; thorough tier only)
+// The response plan is served by a UDP socket of this driver to a real DnsTransport::query (loopback): the parse
+// failure of a network response must be contained and complete the pending query (result or exception).
+static std::string e2eCase(long, const std::string &line, Shared *)
+{
+  using namespace iora::network;
+  J plan = JP(line).val();
+  std::vector<uint8_t> bytes = renderPlan(plan);
+  int sock = socket(AF_INET, SOCK_DGRAM, 0);
+  sockaddr_in a{};
+  a.sin_family = AF_INET;
+  a.sin_addr.s_addr = htonl(INADDR_LOOPBACK);
+  a.sin_port = 0;
+  if (sock < 0 || bind(sock, (sockaddr *)&a, sizeof a) != 0) return "{\"e\":\"DriverError\",\"what\":\"udp bind\"}\n";
+  socklen_t al = sizeof a;
+  getsockname(sock, (sockaddr *)&a, &al);
+  uint16_t port = ntohs(a.sin_port);
+  struct timeval tv = {15, 0};
+  setsockopt(sock, SOL_SOCKET, SO_RCVTIMEO, &tv, sizeof tv);
+  std::atomic<int> served{0};
+  std::thread srv(
+    [&]()
+    {
+      uint8_t q[2048];
+      sockaddr_in from{};
+      socklen_t fl = sizeof from;
+      ssize_t n = recvfrom(sock, q, sizeof q, 0, (sockaddr *)&from, &fl);
+      if (n >= 2)
+      {
+        std::vector<uint8_t> r = bytes;
+        r[0] = q[0]; // answer with the id of the query
+        r[1] = q[1];
+        sendto(sock, r.data(), r.size(), 0, (sockaddr *)&from, fl);
+        served = 1;
+      }
+    });
+  std::string res = "err", exc = "-";
+  long nans = -1;
+  double t0 = rawNow();
+  {
+    DnsConfig cfg(std::vector<std::string>{"127.0.0.1"}, port);
+    cfg.timeout = std::chrono::milliseconds(6000);
+    cfg.retryCount = 0;
+    cfg.transportMode = DnsTransportMode::UDP;
+    cfg.enableCache = false;
+    auto t = std::make_shared<DnsTransport>(cfg);
+    try
+    {
+      t->start();
+      DnsResult r = t->query(DnsQuestion("www.example.com", DnsType::A, DnsClass::IN), "127.0.0.1", port);
+      res = "ok";
+      nans = (long)r.answers.size();
+    }
+    catch (const DnsTimeoutException &)
+    {
+      exc = "timeout";
+    }
+    catch (const DnsParseException &)
+    {
+      exc = "parse";
+    }
+    catch (const std::exception &)
+    {
+      exc = "other";
+    }
+    catch (...)
+    {
+      exc = "unknown";
+    }
+    t->stop();
+  }
+  long ms = (long)((rawNow() - t0) * 1000);
+  shutdown(sock, SHUT_RDWR);
+  srv.join();
+  close(sock);
+  return "{\"e\":\"E2E\",\"plan\":" + line + ",\"res\":\"" + res + "\",\"exc\":\"" + exc + "\",\"answers\":" +
+         std::to_string(nans) + ",\"served\":" + std::to_string(served.load()) + ",\"ms\":" + std::to_string(ms) + "}\n";
+}
+static std::string e2eFail(long, const std::string &line, const char *what, long)
+{
+  return std::string("{\"e\":\"E2E\",\"plan\":") + line + ",\"res\":\"" + what + "\",\"exc\":\"-\",\"answers\":-1,\"served\":0,\"ms\":0}\n";
+}
+
+#endif // DRV_DNS_E2E
+
 // ------------------------------------------------------------------------------------------------ main
 int main(int argc, char **argv)
 {
@@ -994,13 +1096,16 @@ int main(int argc, char **argv)
   }
   std::string mode = argv[1], cases = argv[2], out = argv[3];
   int shards = atoi(argv[4]);
-  if (mode == "name") return runSharded(cases, out, shards, nameCase, nameFail, 20.0);
+  if (mode == "name") return runSharded(cases, out, shards, nameCase, nameFail, 10.0);
   if (mode == "rec" || mode == "query")
   {
     if (argc > 5) g_seed = atol(argv[5]);
     if (argc > 6) g_mutations = atoi(argv[6]);
     return runSharded(cases, out, shards, recCase, recFail, 30.0);
   }
+#ifdef DRV_DNS_E2E
+  if (mode == "e2e") return runSharded(cases, out, shards, e2eCase, e2eFail, 60.0);
+#endif
   if (mode == "cache")
   {
     // virtual CLOCK_MONOTONIC: far ahead of the real clock (the purge thread's 5 s deadline is then in the far real
